@@ -27,7 +27,8 @@ meta = {
   "seed": f"{id_}-{i}",
   "property_targeted": id_,
   "origin": "independent sub-agent given only the property text and a scratch worktree",
-  "needs_to_manifest": (notes.split("\n\n")[0:3]),
+  "change": json.load(open("/verif/seeded/summaries.json")).get(f"{id_}-{i}", {}).get("change"),
+  "needs_to_manifest": json.load(open("/verif/seeded/summaries.json")).get(f"{id_}-{i}", {}).get("needs"),
   "confirmed": {
      "existing_suite_passes_with_change": suite_ok,
      "demo_with_change": demo_with.group(1).strip() if demo_with else None,
